@@ -24,14 +24,33 @@ def form_labels(D):
     return {x for k in D for x in k}
 
 
+SPELLING = {"last": None}
+
+
 def call_form(M, form, deg=None, lam=None, pairs=None):
     """Call M.to_<form> the way a user would for model class type(M)."""
     T = type(M).__name__
     if T in ("QUBO", "QUSO"):            # no reduction arguments
         return getattr(M, "to_" + form)()
+    # the documented signatures are to_qubo/to_quso(lam=None, pairs=None) and to_pubo/to_puso(deg=None, lam=None, pairs=None);
+    # which spelling (positional / keyword) a call uses is a function of the call itself, so replays repeat it
+    import zlib
+    sp = zlib.crc32(repr((form, deg, T, len(M), pairs is None)).encode()) % 4
+    f = getattr(M, "to_" + form)
+    SPELLING["last"] = sp
     if form in ("qubo", "quso"):
-        return getattr(M, "to_" + form)(lam=lam, pairs=pairs)
-    return getattr(M, "to_" + form)(deg, lam=lam, pairs=pairs)
+        if sp == 0:
+            return f(lam, pairs)
+        if sp == 1:
+            return f(lam, pairs=pairs)
+        return f(lam=lam, pairs=pairs)
+    if sp == 0:
+        return f(deg, lam, pairs)
+    if sp == 1:
+        return f(deg=deg, lam=lam, pairs=pairs)
+    if sp == 2 and lam is None and pairs is None:
+        return f(deg=deg)
+    return f(deg, lam=lam, pairs=pairs)
 
 
 def reduction_oracle(ctx, M, D, form, deg, lam_sound, w, tag="", rng=None, check_type=True,
